@@ -65,9 +65,9 @@ INFO = {
  'C09-m4': ("start-style work releases the successor inside resolve", 'a Start-claimed batch whose work keeps running after resolve (raw ExclusiveWork / rate limit)'),
  'C10-m3': ("resolve guarded by an unlocked 'item.complete' read instead of sync.Once", 'a work function whose resolution runs on another goroutine as it returns: resolved twice (send on closed channel)'),
  'C10-m4': ('Start escape hatch evaluated outside the validity guard', 'a Start holding a stale (deleted) next item with count 0 returns without registering: its function never runs'),
- 'C11-m3': ('', ''), 'C11-m4': ('', ''), 'C12-m3': ('', ''), 'C12-m4': ('', ''), 'C13-m3': ('', ''), 'C13-m4': ('', ''), 'C14-m3': ('', ''), 'C14-m4': ('', ''),
- 'C15-m3': ('', ''), 'C15-m4': ('', ''), 'C16-m3': ('', ''), 'C16-m4': ('', ''), 'C17-m3': ('', ''), 'C17-m4': ('', ''), 'C18-m3': ('', ''), 'C18-m4': ('', ''),
- 'C19-m3': ('', ''), 'C19-m4': ('', ''), 'C20-m3': ('', ''), 'C20-m4': ('', ''),
+ 'C11-m3': ("CombineContext registers the deregistration callback (a closure reading 'stops') before filling 'stops'", 'one of the others cancelled by an unrelated goroutine during/just after registration: unsynchronised read of the slice (race detector)'), 'C11-m4': ('Exclusive runner reads item.wait after releasing the item mutex', 'a second delayed call joining the key while the first runner computes its wait (race detector)'), 'C12-m3': ("Buffer.Close waits with 'if' instead of 'for'", 'a consumer that cannot close at once (uncommitted read) plus any broadcast: Close returns and Done closes while consumers are open'), 'C12-m4': ('Buffer.Diff takes the buffer read lock before the consumer lock (written independently of C05-2)', 'a Diff in flight when the consumer is closed: consumer.Close deadlocks against it'), 'C13-m3': ('Channel.Buffer copies outside the mutex', 'a Commit between the unlock and the end of the copy: a torn snapshot with nil holes'), 'C13-m4': ('Channel.Buffer sized with pending() instead of len(buffer)', 'Buffer() while a rollback is outstanding: the values waiting to be replayed are omitted'), 'C14-m3': ('worker pops from the tail of the queue (LIFO)', 'a sustained arrival stream that never lets the queue drain: the oldest queued call is overtaken forever'), 'C14-m4': ('result channel unbuffered + non-blocking send in the worker (two cooperating sites)', 'the function finishes before its caller reaches the receive: Call returns (nil, nil)'),
+ 'C15-m3': ('failure case and ref appended before the element-type check', 'a subscription with a context and an incompatible element type, then a cancellation during the parked publish: another subscription loses its delivery (or a bounds panic)'), 'C15-m4': ("duplicate Subscribe allowed when the existing subscription's context is cancelled", 'Subscribe, cancel, Subscribe again before Unsubscribe: no panic, registry entry overwritten'), 'C16-m3': ("ChainAfterFunc's primary hook becomes 'if stop() && other.Err() == nil'", 'both contexts cancelled within a few hundred ns by different goroutines: f never runs'), 'C16-m4': ("ChainAfterFunc's primary hook checks other.Err() first and then calls stop(); f() unconditionally", 'other cancelled between the liveness check and stop() (hook chain.primary sits there): f runs twice'), 'C17-m3': ('wait() skips close(stop) when the instance function has already returned', 'an instance function returning on its own while held: its stop channel is never closed'), 'C17-m4': ("Do restarts a 'dead' instance (new running() helper) while the old watcher is alive", 'fn returns early, a second Do starts another instance, first holder done: the orphaned watcher closes the second stop channel while held'), 'C18-m3': ('named results in the retry closure: a stale result survives to the cancellation return', 'an operation returning a non-nil result with a plain error, then cancellation'), 'C18-m4': ("isFatalError becomes 'unpackFatalError(err) != err'", 'a plain error of an uncomparable dynamic type: runtime panic comparing interfaces'),
+ 'C19-m3': ('CallResultsSlice grows the target slice when the option is applied', 'a valid CallResultsSlice option followed by a failing option: the target was touched on the error path'), 'C19-m4': ("CallArgs hoists 'in'/'err' into the option's outer scope (shared by every application)", 'one option value applied concurrently to callables of different signatures'), 'C20-m3': ("'last = t' dropped: the clamp only compares with the initial timestamp", 'short rates or jitter with a prompt receiver: timestamps go backwards'), 'C20-m4': ("post-tick guard only when the buffer is empty ('len(c) == 0 && ctx.Err() != nil')", 'buffer full at cancellation and a receive between the guard and the send: unchecked ticks after cancel'),
 
 }
 
@@ -93,7 +93,7 @@ def main():
             'property': prop,
             'summary': summary,
             'needs_to_manifest': needs,
-            'origin': 'fresh sub-agent given only the property text and its own scratch git worktree of /repo',
+            'origin': 'fresh sub-agent given only the property text and its own scratch git worktree of /repo' + (' (round 2: it was additionally told, in one line each, which changes other sub-agents had already produced for this property, so as to get a different mechanism)' if int(m) >= 3 else ''),
             'demo': os.path.basename(demo),
             'demo_cmd': 'go test -vet=off%s -count=1 -run TestZZDemo . (in a checkout of /repo HEAD with the demo file copied in)' % conf.get('demo_flags', ''),
             'confirmed_by': 'tools/confirm_seed.sh in a scratch worktree of /repo HEAD (removed afterwards)',
